@@ -74,13 +74,14 @@ register("C09", "proof",
 register("C01", "other",
          "Partial. (1) Proved in Lean over tables regenerated from utils.py on every run: the branch emitted for every comparison operator is taken exactly when the source condition is false, the set instruction "
          "computes the comparison, the two suffix tables negate each other (branch_neg_correct, cmp_set_correct, negated_table_negates). (2) Proved for a core sub-language (ALU operations, device reads/writes, "
-         "yield/sleep, own-stack reads/writes, if/else on comparisons and truth tests, while on a comparison, while True, break, continue, return, calls of procedures — nested to any depth, not recursive, return addresses saved on the call stack, parameters and results in the fixed stack cells): the model code generator comp is correct on the IC10 machine for every program, value semantics, device environment and fuel "
+         "yield/sleep, own-stack reads/writes, if/else on comparisons and truth tests, while on a comparison, while True, break, continue, return, calls of procedures — nested to any depth, not recursive, return addresses saved on the call stack, parameters and results in the fixed stack cells, and bodies of functions inlined at their only call site): the model code generator comp is correct on the IC10 machine for every program, value semantics, device environment and fuel "
          "(PV.Core.sim — a relational simulation up to ra —, compile_correct_running for whole programs with procedures, compile_correct_done for procedure-free programs; hypothesis Good decided by goodB and discharged for the real suffix tables by good_of_real_tables; compile_correct_*_stripped: also after label removal, "
          "by composition with C05's label-removal theorem through comp_ok). Tie of (2) to the code: for generated core programs the "
          "captured pre-allocation code of the REAL transpiler must equal comp (flatten src) instruction for instruction (stream incore, 97-99 % of that profile inside the core, all of them equal on the clean tree); "
          "flatten (unproved, executable) is compared with the reference semantics per program. (3) Beyond the core the whole-program statement is explored by an executable oracle — the reference semantics of the "
          "dialect (PV.Src) and the IC10 machine (PV.IC10), hand-written Lean specifications compiled into pvdrv, run each generated source program and the real emitted code against the same pseudo-random device "
-         "environments and compare effect traces (prefix rule for endless programs). Streams: core, functions, call-heavy, incore; behaviour-neutral options randomised; witnesses of known findings F-C01-a/c/f "
+         "environments and compare effect traces (prefix rule for endless programs). The reference semantics PV.Src is itself validated against CPython on generated programs (stream refsem: same abstract program printed as plain Python over ENV/EFF, executed by the interpreter on a recorded environment). "
+         "Streams: core, functions, call-heavy, incore / incoref / incoren / incorei (the last under the default options with inlining), refsem; behaviour-neutral options randomised; witnesses of known findings F-C01-a/c/f "
          "printed as KNOWN-FINDING. Level 'other' because for inlined functions, tail calls, the push/pop convention, for-loops over lists and constant lists the deciding method is differential testing against a formal semantics.",
          TB + "PV.Src and PV.IC10 semantics are trusted hand-written specifications (not validated against the game); PV.Flatten is an unproved executable model of the front end (checked per program against PV.Src "
          "and against the real pre-allocation code); NaN / non-finite values outside the compared domain; 128-instruction tick budget not modelled.",
